@@ -152,6 +152,7 @@ func queriesFor(tier string) []*qgen.Query {
 	}
 	for _, s := range sets(userBlocks(false), 1) {
 		mk(F("usersV"), s)
+		mk(F("usersN"), s)
 	}
 	for _, r := range []*qgen.Node{F("items"), F("empty"), F("itemsV")} {
 		for _, s := range sets(itemBlocks(), k) {
